@@ -18,6 +18,7 @@
 // which is the replay file (run the binary with the file as its only argument).
 #pragma once
 #include <cstdarg>
+#include <cerrno>
 #include <cfloat>
 #include <climits>
 #include <cmath>
@@ -1270,6 +1271,8 @@ inline void op(VM &vm) {
 // executes one program; returns the digest of everything it observed
 inline uint64_t run_program(const uint8_t *data, size_t size) {
     g_obs = 1469598103934665603ULL;
+    // ambient thread state a caller may arrive with: errno left over from unrelated calls (bits 6-7 of the first byte choose it)
+    { static const int E[4] = {0, ERANGE, EINVAL, EDOM}; errno = E[size ? (data[0] >> 6) & 3 : 0]; }
     // the library has no global state to reset (that is property C18); the VM state is local
     VM vm(data, size);
     stats().execs++;
